@@ -508,7 +508,7 @@ func TestWorker(t *testing.T) {
 		_ = raceChoices
 		return raceRep, fmt.Sprint(raceChoices), e.Violation
 	}
-	if spec.Property == "C20" || spec.Property == "C19" {
+	if spec.Property == "C20" || spec.Property == "C19" || spec.Property == "C10" {
 		e.Opts.DelayBound = false
 		if spec.Replay != nil {
 			var rp struct {
